@@ -914,7 +914,7 @@ def lit_shapes(tier):
     # digits: decimal, hexadecimal, octal (after the leading 0), binary; characters: any text, floating literal.
     # quick: every boundary between int, unsigned, long (2^31, 2^32) is crossed in base 10, 16 and 8;
     # thorough: every boundary up to 2^64 in every base
-    dd, hd, od, bd, na, nf = (10, 9, 11, 12, 8, 9) if q else (20, 16, 22, 64, 11, 14)
+    dd, hd, od, bd, na, nf = (10, 9, 11, 12, 7, 9) if q else (20, 16, 22, 64, 11, 14)
     if os.environ.get('C14_LIT_BOUNDS'):          # development aid
         dd, hd, od, bd, na, nf = [int(x) for x in os.environ['C14_LIT_BOUNDS'].split(',')]
     INT = 'c14_spec.kind == C14_LIT_INT && c14_spec.base == %d'
@@ -1087,7 +1087,8 @@ void h_literal_fidelity(void) {
 def build(ctx):
     unit = Unit(ctx)
     types = LITERAL_TYPES if ctx.tier == 'quick' else [t[0] for t in ALL_TYPES]
-    groups = op_groups(ctx, unit, types) + eval_groups(ctx) + literal_groups(ctx, unit)
+    # the literal groups are the longest single runs: scheduled first
+    groups = literal_groups(ctx, unit) + op_groups(ctx, unit, types) + eval_groups(ctx)
     if ctx.tier == 'thorough' or os.environ.get('C14_FIDELITY'):
         groups += fidelity_groups(ctx, unit, types)
     only = os.environ.get('C14_ONLY')          # development aid: run a subset of the groups
